@@ -1,0 +1,37 @@
+// Package atomicfile replaces the content of a file so that a crash at any moment leaves either the old content or the
+// new content, never a truncated file.
+package atomicfile
+
+import (
+	"os"
+	"path/filepath"
+)
+
+// TempPath is where WriteFile stages the new content of path: a dot-file in the same directory (same filesystem).
+func TempPath(path string) string {
+	return filepath.Join(filepath.Dir(path), "."+filepath.Base(path)+".tmp")
+}
+
+// WriteFile writes data to TempPath(path), syncs it and renames it over path.
+func WriteFile(path string, data []byte, perm os.FileMode) error {
+	tmp := TempPath(path)
+	f, err := os.OpenFile(tmp, os.O_WRONLY|os.O_CREATE|os.O_TRUNC, perm)
+	if err != nil {
+		return err
+	}
+	if _, err := f.Write(data); err != nil {
+		f.Close()
+		os.Remove(tmp)
+		return err
+	}
+	if err := f.Sync(); err != nil {
+		f.Close()
+		os.Remove(tmp)
+		return err
+	}
+	if err := f.Close(); err != nil {
+		os.Remove(tmp)
+		return err
+	}
+	return os.Rename(tmp, path)
+}
